@@ -787,10 +787,31 @@ static void do_cb_action(cfg_t *cbcfg)
 			return;
 		cfg_set_error_function(t, sim_errfunc);
 		size_t nd = r.diags.size();
-		int rc = cfg_parse_buf(t, E->cb_act == "nested_parse" ? "a = 3\n" : "= = nested text that is refused\n");
+		// where the schema has the simulator's function option, the nested text calls it: the nested call must receive its
+		// own arguments, whatever the outer parse was collecting when the callback ran
+		cfg_opt_t *fo = nullptr;
+		for (unsigned k = 0; k < cfg_num(t); k++) {
+			cfg_opt_t *e = cfg_getnopt(t, k);
+			if (e && e->type == CFGT_FUNC && e->func == sim_func && strcmp(e->name, "fn") == 0)
+				fo = e;
+		}
+		size_t ncb = r.cbs.size();
+		int rc = cfg_parse_buf(t, E->cb_act != "nested_parse" ? "= = nested text that is refused\n" : fo ? "fn(\"n\")\na = 3\n" : "a = 3\n");
 		r.diags.resize(nd); // the temporary context's diagnostics are its own
 		cfg_free(t);
-		r.cbs.push_back("act " + E->cb_act + " ret=" + std::to_string(rc));
+		std::string verdict = "act " + E->cb_act + " ret=" + std::to_string(rc);
+		if (fo && E->cb_act == "nested_parse") {
+			int seen = 0;
+			for (size_t k = ncb; k < r.cbs.size(); k++)
+				if (r.cbs[k].compare(0, 6, "fn fn ") == 0) {
+					seen++;
+					if (r.cbs[k].rfind("fn fn argc=1 [\"n\",]", 0) != 0)
+						verdict += " MISMATCH(nested function call received " + r.cbs[k] + ")";
+				}
+			if (seen != 1)
+				verdict += " MISMATCH(nested function called " + std::to_string(seen) + " times)";
+		}
+		r.cbs.push_back(verdict);
 	}
 }
 
